@@ -966,7 +966,12 @@ def c19(tier, seed):
     t1b = session("c19-hs-ring", FaultBudget=1, FaultKinds=kinds, Profiles=["mid"], PubLens=[32], InitPads=[True, False],
                   Variants=["tr"], TrafficMode="short", PatSet=["NN", "XX", "IK", "X", "KK"])
     r1b = replay("C19", t1b, seed, 1, threads=14, backends=bk)
-    tl, rl = [t1, t1b], [r1, r1b]
+    # a read that the specification ACCEPTS must not be turned into a rejection that leaves its payload behind: sessions in
+    # which the builder was handed another key than the one the peer then transmits (the transmitted key is the one that counts)
+    t1c = session("c19-other-rs", ExtraRs=[True], ExtraRsOther=True, Profiles=["mid"], PubLens=[32], InitPads=[False], Variants=["tr"],
+                  TrafficMode="short", PatSet=(["XX", "IX", "NX", "XN", "X1X1", "X"] if tier == "quick" else BASE))
+    r1c = replay("C19", t1c, seed, 1, threads=14)
+    tl, rl = [t1, t1b, t1c], [r1, r1b, r1c]
     for name, c in cfgs:
         t = transport(name, **c)
         rl.append(replay("C19", t, seed, 2, threads=14))
